@@ -690,4 +690,89 @@ MUTANTS = [
          old="        let mut sub_hasher = *self;\n",
          new="        let mut sub_hasher = Self::new_with_keys(self.finish128().h1, std::process::id().into());\n",
          expect="C13."),
+    # ------------------------------------------------------------------ C14
+    dict(id="C14.a-result-ignores-error-type", prop="C14", file="crates/stable_type_id/src/lib.rs",
+         old="        base.combine(T::STABLE_TYPE_ID).combine(E::STABLE_TYPE_ID)\n    };\n}\n\n// RefCell<T>",
+         new="        base.combine(T::STABLE_TYPE_ID)\n    };\n}\n\n// RefCell<T>",
+         expect="C14.a/parameter-coverage/Result<T, E>/E"),
+    dict(id="C14.a-array-ignores-length", prop="C14", file="crates/stable_type_id/src/lib.rs",
+         old="        base.combine(T::STABLE_TYPE_ID).combine(size_id)",
+         new="        let _ = size_id;\n        base.combine(T::STABLE_TYPE_ID)",
+         expect="C14.a/parameter-coverage/[T; N]/N"),
+    dict(id="C14.a-derive-drops-params", prop="C14", file="crates/identifiable_derive_lib/src/lib.rs",
+         old="                #(\n                    hash = <#type_params as #identifiable_trait>::STABLE_TYPE_ID\n                        .combine(hash);\n                )*",
+         new="                #(\n                    let _ = <#type_params as #identifiable_trait>::STABLE_TYPE_ID;\n                )*",
+         expect="C14.a/parameter-coverage/"),
+    dict(id="C14.b-duplicate-base-name", prop="C14", file="crates/stable_type_id/src/lib.rs",
+         old='        let base = StableTypeID::from_unique_type_name("alloc::rc::Rc");',
+         new='        let base = StableTypeID::from_unique_type_name("std::sync::Arc");',
+         expect="C14.b/base-names-pairwise-distinct"),
+    dict(id="C14.d-high-low-swapped", prop="C14", file="crates/qbice/src/query.rs",
+         old="                self.stable_type_id.high(),\n                self.stable_type_id.low(),",
+         new="                self.stable_type_id.low(),\n                self.stable_type_id.high(),",
+         expect="C14.d/QueryID/packing"),
+    dict(id="C14.d-compact128-from-swapped", prop="C14", file="crates/stable_hash/src/lib.rs",
+         old="    fn from(value: u128) -> Self { Self(value as u64, (value >> 64) as u64) }",
+         new="    fn from(value: u128) -> Self { Self((value >> 64) as u64, value as u64) }",
+         expect="C14.d/word-conventions"),
+    # ------------------------------------------------------------------ C15
+    dict(id="C15.a-occupied-arm-overwrites-live", prop="C15", file=ST + "intern.rs",
+         old="""                std::collections::hash_map::Entry::Occupied(mut entry) => {
+                    if let Some(arc) = entry.get().upgrade() {
+                        return Interned(arc);
+                    }
+
+                    // The weak reference is dead, we can replace it
+                    let arc = Arc::new(value);""",
+         new="""                std::collections::hash_map::Entry::Occupied(mut entry) => {
+                    if entry.get().strong_count() > 1 {
+                        if let Some(arc) = entry.get().upgrade() {
+                            return Interned(arc);
+                        }
+                    }
+
+                    // The weak reference is dead, we can replace it
+                    let arc = Arc::new(value);""",
+         expect="C15.a/Interner::intern/double-checked-insertion"),
+    dict(id="C15.a-allocate-under-read-lock", prop="C15", file=ST + "intern.rs",
+         old="""        // Not found, so insert a new one
+        {
+            let mut write_shard = typed_shard.write_shard(shard_index);
+
+            match write_shard.entry(hash_128) {
+                // double check in case another thread inserted it
+                std::collections::hash_map::Entry::Occupied(mut entry) => {
+                    if let Some(arc) = entry.get().upgrade() {
+                        return Interned(arc);
+                    }
+
+                    // The weak reference is dead, we can replace it
+                    let arc = Arc::from(value);""",
+         new="""        // Not found, so insert a new one
+        {
+            let shard_index = typed_shard.shard_index(hash_128.high());
+            let mut write_shard = typed_shard.write_shard(shard_index);
+
+            match write_shard.entry(hash_128) {
+                // double check in case another thread inserted it
+                std::collections::hash_map::Entry::Occupied(mut entry) => {
+                    if let Some(arc) = entry.get().upgrade() {
+                        return Interned(arc);
+                    }
+
+                    // The weak reference is dead, we can replace it
+                    let arc = Arc::from(value);""",
+         expect="C15.a/Interner::intern_unsized/double-checked-insertion"),
+    dict(id="C15.b-vacuum-drops-live", prop="C15", file=ST + "intern.rs",
+         old="        write_shard.retain(|_, weak_value| weak_value.upgrade().is_some());",
+         new="        write_shard.retain(|_, weak_value| weak_value.strong_count() > 1);",
+         expect="C15.b/vacuum/keeps-exactly-live-weaks"),
+    dict(id="C15.c-seen-set-without-type-id", prop="C15", file=ST + "intern.rs",
+         old="            stable_type_id: T::STABLE_TYPE_ID,\n            hash_128: compact_128,",
+         new="            stable_type_id: <() as Identifiable>::STABLE_TYPE_ID,\n            hash_128: compact_128,",
+         expect="C15.c/encode/first-occurrence-decision"),
+    dict(id="C15.c-reference-on-first", prop="C15", file=ST + "intern.rs",
+         old="        if first {\n            // serialize the full value",
+         new="        if !first {\n            // serialize the full value",
+         expect="C15.c/encode/first-occurrence-decision"),
 ]
